@@ -666,7 +666,7 @@ func (c *Check) decoderStateless(rule string) {
 						continue
 					}
 					m++
-					recv := cl.Common().Args[0]
+					recv := p.origin(cl.Common().Args[0])
 					_, isAlloc := recv.(*ssa.Alloc)
 					c.require(isAlloc && !inLoop(recv.(ssa.Instruction).Block()), rule, p.Name(fn), "bitmap receiver of "+d, p.InstrPos(cl.(ssa.Instruction)),
 						"the duplicate bitmap is a variable of this call (allocated and zeroed once per call, outside the attribute loop)")
